@@ -263,3 +263,37 @@ Proof.
   - destruct (p_watchdog pa) as [[f1 f2]|]; [apply Hw|unfold is_byte; lia].
   - destruct (p_watchdog pa) as [[f1 f2]|]; [apply Hw|unfold is_byte; lia].
 Qed.
+
+(* ------------------------------------------------------------------ at the master level *)
+From PB Require Import DpMaster DpMasterHistory.
+
+Lemma order_master : forall pa bufsize m0 cs m' outs log,
+  1 <= p_max_retry pa ->
+  d_run pa bufsize m0 cs [] = Ok (m', outs, log) ->
+  contract_m None outs = true ->
+  forall k a o i q d, slot m0 k = Some (periph_new a o i q d) ->
+  forall pre h pdu post,
+  proj k log = pre ++ WReq h pdu :: post ->
+  h_dsap h = None ->
+  bringup_phase pre = PhReady /\ strict_phase pre = PhReady /\
+  h = mkHeader a (p_address pa) None None (h_fc h) /\ (exists f, h_fc h = FcRequest f RqSrdHigh).
+Proof.
+  intros pa bufsize m0 cs m' outs log Hm H C k a o i q d Hk.
+  apply (order pa a o (proj k log) Hm). apply (master_history pa bufsize m0 cs m' outs log H C k a o i q d Hk).
+Qed.
+
+Lemma monitors_are_ghost : forall tr,
+  bringup_phase tr = gh_text (ghost_of tr) /\ strict_phase tr = gh_phase (ghost_of tr).
+Proof. intro tr. split; [apply bringup_phase_ghost|apply strict_phase_ghost]. Qed.
+
+Lemma state_phase_invariant : forall pa a o p g,
+  Inv pa a o p g ->
+  gh_phase g = match pe_state p with
+               | PsOffline => PhNeedDiag
+               | PsWaitForParam => PhDiagAnswered
+               | PsWaitForConfig => PhPrmAcked
+               | PsValidateConfig => PhCfgAcked
+               | PsPreDataExchange | PsDataExchange => PhReady
+               end /\
+  (gh_text g = gh_phase g \/ (gh_phase g = PhCfgAcked /\ gh_text g = PhReady)).
+Proof. intros pa a o p g I. split; [exact (inv_phase _ _ _ _ _ I)|exact (inv_text _ _ _ _ _ I)]. Qed.
